@@ -49,6 +49,8 @@ type Gate struct {
 	mu       sync.Mutex
 	n        int  // eligible calls seen in this run
 	failAt   int  // fail eligible call #failAt (0 = none)
+	cancelAt int  // the caller gives up right before eligible call #cancelAt: its context is cancelled, that call is not made
+	CancelOp func()
 	crashAt  int  // crash before eligible call #crashAt (0 = none)
 	dead     bool // instance crashed: every later call blocks for ever without effect
 	onCrash  func()
@@ -100,6 +102,14 @@ func (g *Gate) Reset(failAt, crashAt int) {
 	g.mu.Lock()
 	defer g.mu.Unlock()
 	g.n, g.failAt, g.crashAt, g.dead, g.events = 0, failAt, crashAt, false, nil
+	g.cancelAt = 0
+}
+
+// CancelAt: the operation's caller gives up (its context is cancelled) right before eligible call #k.
+func (g *Gate) CancelAt(k int) {
+	g.mu.Lock()
+	defer g.mu.Unlock()
+	g.cancelAt = k
 }
 
 func (g *Gate) Calls() int { g.mu.Lock(); defer g.mu.Unlock(); return g.n }
@@ -209,6 +219,12 @@ func (g *Gate) Do(ctx context.Context, target, method string, args Event, blocki
 		g.emitLocked(ev)
 		g.mu.Unlock()
 		return fmt.Errorf("%s.%s: %w", target, method, ErrInjected)
+	}
+	if g.cancelAt != 0 && k == g.cancelAt && g.CancelOp != nil {
+		// the caller gives up: from this call on the operation runs under a cancelled context (whoever honours it
+		// fails by itself; compensations must not depend on it)
+		g.CancelOp()
+		ev["cancelled"] = true
 	}
 	if blocking {
 		g.inflight++
